@@ -340,25 +340,60 @@ def handleNestEnum (j : Json) : Except String Json := do
 
 end NestOps
 
+/-- one turn of thread `t` in the fine-grained `add_sys_path` system, recording a RETURN (the pc goes from inside a
+    call to idle — `fIdle` is a parking place, so a return is always the last micro-step of a turn) together with
+    whether the path is on `sys.path` at that moment and whether the call went through the not-exists branch
+    (theorems `add_sys_path_returned_on_syspath`, `…_anyfs`) -/
+def fTurnR (ex : Nat → Bool) (a : FState × Array Json) (t : Nat) : FState × Array Json :=
+  let pc0 := (a.1.threads t).pc
+  let st' := fTurn ex a.1 t
+  let rets := if pc0 != .fIdle && (st'.threads t).pc == .fIdle then
+      match pc0.path with
+      | some p => a.2.push (Json.arr #[(t : Json), (p : Json), Json.bool (st'.sysPath.contains p),
+                                        Json.bool (match pc0 with | .fAddK _ | .fAddM _ => true | _ => false)])
+      | none => a.2
+    else a.2
+  (st', rets)
+
+def fFinishR (ex : Nat → Bool) (n : Nat) : Nat → FState × Array Json → FState × Array Json
+  | 0, a => a
+  | fuel + 1, a =>
+    match (List.range n).find? (fEnabled a.1) with
+    | none => a
+    | some t => fFinishR ex n fuel (fTurnR ex a t)
+
+def optNatList (j : Json) (k : String) : Except String (List Nat) :=
+  match j.getObjVal? k with
+  | .ok v => natList v
+  | .error _ => pure []
+
 def handleSysPathF (j : Json) : Except String Json := do
   let progs ← (← (← j.getObjVal? "threads").getArr?).toList.mapM natList
   let sched ← natList (← j.getObjVal? "sched")
   let exs ← natList (← j.getObjVal? "exists")
   let base ← natList (← j.getObjVal? "base")
+  -- the history of the process: `_known_dirs` / `_missing_dirs` as earlier calls left them
+  let known0 ← optNatList j "known0"
+  let missing0 ← optNatList j "missing0"
   let fin ← boolField j "finish"
   let n := progs.length
-  if sched.any (· ≥ n) then .error "schedule names a thread that does not exist"
-  let ex := fun p => exs.contains p
-  let st0 := fInit base (fun t => (progs[t]?).getD [])
-  let st1 := fRunTurns ex st0 sched
+  -- a schedule entry 1000 + d: directory d is created at that moment (the file system changes under the threads)
+  if sched.any (fun e => e ≥ n && e < 1000) then .error "schedule names a thread that does not exist"
+  let st0 := fInitH base known0 missing0 (fun t => (progs[t]?).getD [])
+  let b1 := sched.foldl (fun (b : (FState × Array Json) × List Nat) e =>
+      if e ≥ 1000 then (b.1, (e - 1000) :: b.2) else (fTurnR (fun p => b.2.contains p) b.1 e, b.2)) ((st0, #[]), exs)
+  let a1 := b1.1
+  let ex := fun p => b1.2.contains p
   let totalOps := (progs.map List.length).sum
-  let st := if fin then fFinish ex n (12 * totalOps + 12) st1 else st1
+  let a := if fin then fFinishR ex n (12 * totalOps + 12) a1 else a1
+  let st := a.1
   let done := (List.range n).all fun t => (st.threads t).pc == .fIdle && (st.threads t).ops.isEmpty
   let sortd := fun (l : List Nat) => (l.eraseDups.toArray.qsort (· < ·)).toList
   pure (Json.mkObj [
     ("sysPath", Json.arr (st.sysPath.map fun (p : Nat) => (p : Json)).toArray),
     ("known", Json.arr ((sortd st.known).map fun (p : Nat) => (p : Json)).toArray),
     ("missing", Json.arr ((sortd st.missing).map fun (p : Nat) => (p : Json)).toArray),
+    ("rets", Json.arr a.2),
     ("done", Json.bool done)])
 
 def handle (op : String) (j : Json) : Except String Json := do
@@ -434,7 +469,9 @@ def handle (op : String) (j : Json) : Except String Json := do
     let n := progs.length
     if sched.any (· ≥ n) then .error "schedule names a thread that does not exist"
     let ex := fun p => exs.contains p
-    let st0 := spInit base (fun t => (progs[t]?).getD [])
+    let known0 ← optNatList j "known0"
+    let missing0 ← optNatList j "missing0"
+    let st0 := spInitH base known0 missing0 (fun t => (progs[t]?).getD [])
     let st1 := spRunTurns ex st0 sched
     let totalOps := (progs.map List.length).sum
     let st := if fin then spFinish ex n (8 * totalOps + 8) st1 else st1
@@ -443,6 +480,7 @@ def handle (op : String) (j : Json) : Except String Json := do
     pure (Json.mkObj [
       ("sysPath", Json.arr (st.sysPath.map fun (p : Nat) => (p : Json)).toArray),
       ("known", Json.arr (known.map fun (p : Nat) => (p : Json)).toArray),
+      ("missing", Json.arr ((st.missing.eraseDups.toArray.qsort (· < ·)).toList.map fun (p : Nat) => (p : Json)).toArray),
       ("done", Json.bool done)])
   | _ => .error s!"unknown op {op}"
 
